@@ -99,6 +99,10 @@ def step (e : St) (ws : List String) : St × List String :=
       let hits := search Pmin Pmax e.dist e.cfg e.s vec k
       (e, [("hits " ++ " ".intercalate (hits.map fun x => s!"{x.id}:{x.score}:{fmtMd x.md}")).trimAsciiEnd.toString])
     | _, _ => (e, ["bad-op"])
+  | ["loadempty"] =>
+    -- the snapshot of an empty index (no bytes) loaded into this index: nothing is left
+    if !e.exact then ({ e with s := Index.empty }, ["loadempty ok"]) else
+    ({ e with s := Index.empty }, "loadempty ok" :: dump Index.empty)
   | ["reload"] =>
     if !e.exact then (e, ["reload ok"]) else
     let s' := e.s.reload
